@@ -31,6 +31,41 @@ func TestVerifC08(t *testing.T) {
 		case 2: // the established subscription that loses its context after the gate timeout (see C05 case 0)
 			return c04Plan{Name: "gate-timeout/genstamp", Key: "C08-genstamp-after-gate-timeout", NCh: 1,
 				Armed: []c04Gk{c04GkConnH, c04GkSubH, c04GkJoin}, Script: c05GenStamp}
+		case 5: // a connect command inside a slow OnConnecting handler across the whole Node.Shutdown: it passed its
+			// first look before the shutdown, registers after the hub snapshot, and must be refused then
+			return c04Plan{Name: "connecting-across-shutdown", NCh: 1, Armed: []c04Gk{c04GkConnecting, c04GkJoin},
+				Script: func(e *c04Eng, r *rand.Rand) {
+					e.spawn(c04Op{Kind: "connect"}) // parked in OnConnecting
+					e.spawn(c04Op{Kind: "shutdown"})
+					if p := e.parkOf(c04GkConnecting); p != nil {
+						e.release(p, true)
+					}
+				}}
+		case 6: // two connect commands processed concurrently, both inside OnConnecting: both pass the
+			// "already authenticated" look; connectMu serialises the two triggerConnect calls and only the
+			// first may run the connect callback
+			return c04Plan{Name: "two-connects-concurrently", NCh: 1, Armed: []c04Gk{c04GkConnecting, c04GkConnH, c04GkJoin},
+				Script: func(e *c04Eng, r *rand.Rand) {
+					e.spawn(c04Op{Kind: "connect"})
+					e.spawn(c04Op{Kind: "connect"})
+					for i := 0; i < 2; i++ {
+						if p := e.parkOf(c04GkConnecting); p != nil {
+							e.release(p, true)
+						}
+					}
+					for i := 0; i < 2; i++ {
+						if p := e.parkOf(c04GkConnH); p != nil {
+							e.release(p, true)
+						}
+					}
+					e.spawn(c04Op{Kind: "subsrv", Ch: 0})
+				}}
+		case 7: // a second connect command after the first completed: bad request, the connection is closed
+			return c04Plan{Name: "second-connect-after-connected", NCh: 1, Armed: []c04Gk{c04GkJoin},
+				Script: func(e *c04Eng, r *rand.Rand) {
+					c04Connect(e)
+					e.spawn(c04Op{Kind: "connect"})
+				}}
 		case 3: // close racing the connect handler: connectMu serialises them
 			return c04Plan{Name: "close-during-connect-handler", NCh: 1, Armed: cb,
 				Script: func(e *c04Eng, r *rand.Rand) {
